@@ -719,6 +719,12 @@ def call_ext(I, f: Ext, args, kw, node=None):
             return r
         import math
         return math.ceil(v)
+    if name == "unicodedata.category":
+        I.used_models.add("unicodedata.category (concrete characters: CPython's table; ASCII part identical in 3.11/3.12)")
+        if isinstance(args[0], str):
+            import unicodedata
+            return unicodedata.category(args[0])
+        raise Unsupported("unicodedata.category on symbolic character")
     if name in ("copy.deepcopy", "deepcopy", "copy.copy"):
         raise Unsupported("deepcopy")
     raise Unsupported(f"external call {name} has no model")
